@@ -15,13 +15,17 @@ func init() {
 			ID: "C06", Title: "Ineligible paths never reach the Loc-RIB", Level: "other",
 			Technique:   "hidden-path gate on every emission (typed-AST guard extraction at the policy call that produces the emitted path), reason-table agreement, allowed-atom check of the loop-detection predicates, RFC 9234 ingress truth table on extracted guards, init/dispose pairing of the loop-detection registrations",
 			DesignRef:   "DESIGN.md §4 C06",
-			Decided:     "(1) every announcement a client receives from package adjRIBIn (AddPath, AddPathInitialDump, the new path of ReplacePath) is the policy output for a stored path that a dominating test established as not hidden; addPath stores validatePath's verdict in HiddenReason before that test; (2) validatePath returns each of the five reasons of the statement (AS loop, our ORIGINATOR_ID, cluster loop, OTC mismatch, empty AS_PATH on eBGP) under a condition whose key atom has the required polarity, and no condition on the way mentions anything but the attributes/session facts of these five rules — in particular the AS-loop and cluster-loop scans look at every ASN of every segment / every cluster ID (no skip conditions); (3) validatePathOnlyToCustomer agrees with the RFC 9234 §5 ingress table on all role × OTC combinations (72 valuations), including the OTC stamp on routes from providers, peers and route servers; (4) fsmAddressFamily.init registers the local ASN (and the cluster ID for RR clients) with the VRF before the Adj-RIB-In gets its first client, and dispose/ removes them under the same conditions.",
-			NotDecided:  "that the VRF's reference counters compute membership correctly; behaviour over histories of policy replacements (only the gate on each emission is decided).",
+			Decided:     "(1) every announcement a client receives from package adjRIBIn (AddPath, AddPathInitialDump, the new path of ReplacePath) is the policy output for a stored path that a dominating test established as not hidden; addPath stores validatePath's verdict in HiddenReason before that test, and no return of a function that stores a path in the table is reachable from the store without that verdict assignment; (2) validatePath returns each of the five reasons of the statement (AS loop, our ORIGINATOR_ID, cluster loop, OTC mismatch, empty AS_PATH on eBGP) under a condition whose key atom has the required polarity, and no condition on the way mentions anything but the attributes/session facts of these five rules — in particular the AS-loop and cluster-loop scans look at every ASN of every segment / every cluster ID (no skip conditions); (3) validatePathOnlyToCustomer agrees with the RFC 9234 §5 ingress table on all role × OTC combinations (72 valuations), including the OTC stamp on routes from providers, peers and route servers; (4) fsmAddressFamily.init registers the local ASN (and the cluster ID for RR clients) with the VRF before the Adj-RIB-In gets its first client, and dispose/ removes them under the same conditions; (5) RefcounterUint32.Remove decrements the entry whose value was requested and, at zero, deletes exactly that entry (table of slice-deletion idioms: shift+truncate, append-splice, swap-with-last+truncate, each with the matched loop index).",
+			NotDecided:  "the reference counters beyond the Remove rule (Add/IsPresent are read, not decided); behaviour over histories of policy replacements (only the gate on each emission is decided).",
 			TrustedBase: stdTrusted,
 		},
 		Run: runC06,
 		Controls: []Control{
 			{Name: "replace-chain-drops-hidden-gate", File: "routingtable/adjRIBIn/adj_rib_in.go", Old: "\t\t\t// Ineligible paths are never announced, whatever the policy says\n\t\t\tif path.IsHidden() {\n\t\t\t\tcontinue\n\t\t\t}\n", New: "", Expect: "hidden-gate"},
+			{Name: "reannouncement-shortcut-skips-verdict", File: "routingtable/adjRIBIn/adj_rib_in.go", Old: "\t// Bail out if this path is considered ineligible\n", New: "\tif len(oldPaths) == 1 && oldPaths[0].IsHidden() && oldPaths[0].Equal(p) {\n\t\treturn nil\n\t}\n", Expect: "stored-path-has-verdict"},
+			{Name: "refcounter-swap-wrong-way", File: "util/refcounter/refcounter_uint32.go", Old: "\t\t\tcopy(itemList[i:], itemList[i+1:])\n\t\t\titemList = itemList[:]\n\t\t\tr.items = itemList[:len(itemList)-1]\n", New: "\t\t\tlast := len(itemList) - 1\n\t\t\titemList[last] = itemList[i]\n\t\t\tr.items = itemList[:last]\n", Expect: "refcounter-removes-matched-entry"},
+			{Name: "refactor-refcounter-swap-with-last", Silent: true, File: "util/refcounter/refcounter_uint32.go", Old: "\t\t\tcopy(itemList[i:], itemList[i+1:])\n\t\t\titemList = itemList[:]\n\t\t\tr.items = itemList[:len(itemList)-1]\n", New: "\t\t\tlast := len(itemList) - 1\n\t\t\titemList[i] = itemList[last]\n\t\t\tr.items = itemList[:last]\n"},
+			{Name: "refactor-refcounter-append-delete", Silent: true, File: "util/refcounter/refcounter_uint32.go", Old: "\t\t\tcopy(itemList[i:], itemList[i+1:])\n\t\t\titemList = itemList[:]\n\t\t\tr.items = itemList[:len(itemList)-1]\n", New: "\t\t\tr.items = append(itemList[:i], itemList[i+1:]...)\n"},
 			{Name: "asloop-skips-sets", File: "routingtable/adjRIBIn/adj_rib_in.go", Old: "\tfor _, pathSegment := range *p.BGPPath.ASPath {\n", New: "\tfor _, pathSegment := range *p.BGPPath.ASPath {\n\t\tif pathSegment.Type != 2 {\n\t\t\tcontinue\n\t\t}\n", Expect: "eligibility-conditions"},
 			{Name: "otc-peer-any-asn", File: "routingtable/adjRIBIn/adj_rib_in.go", Old: "if pr == packet.PeerRoleRolePeer && path.BGPPath.BGPPathA.OnlyToCustomer != a.sessionAttrs.PeerASN {", New: "if pr == packet.PeerRoleRoleRS && path.BGPPath.BGPPathA.OnlyToCustomer != a.sessionAttrs.PeerASN {", Expect: "otc-ingress-table"},
 			{Name: "dispose-removes-clusterid-unconditionally", File: "protocols/bgp/server/fsm_address_family.go", Old: "\tif f.fsm.peer.routeReflectorClient {\n\t\tf.fsm.peer.vrf.RemoveContributingClusterID(f.fsm.peer.clusterID)\n\t}\n", New: "\tf.fsm.peer.vrf.RemoveContributingClusterID(f.fsm.peer.clusterID)\n", Expect: "loop-registration-paired"},
@@ -121,6 +125,53 @@ func runC06(c *core.Ctx) {
 		proc := core.Calls(f.Pkg, f.Decl.Body, core.KeyIs(processKey))
 		c.Check(okStore && len(proc) == 1 && storePos < proc[0].Pos(), "hidden-gate", f.Name()+" stores validatePath's verdict before the policy runs", f.Decl.Pos(), "addPath does not record validatePath's verdict in HiddenReason before the gate")
 	}
+
+	// every stored path gets a verdict: from each store into the table, no return is reachable without the verdict assignment
+	c.Floor("stored-path-has-verdict", 2)
+	for _, f := range p.MethodsOf(adjIn, "AdjRIBIn") {
+		if f.Decl.Body == nil {
+			continue
+		}
+		isStoreKey := core.KeyIs("routingtable.(*RoutingTable).AddPath", "routingtable.(*RoutingTable).ReplacePath")
+		stores := core.Calls(f.Pkg, f.Decl.Body, isStoreKey)
+		if len(stores) == 0 {
+			continue
+		}
+		c.Analysed(f)
+		vp := p.Func(adjIn + ".(*AdjRIBIn).validatePath")
+		g := p.CFG(f)
+		for i, st := range stores {
+			stored := core.ObjOf(f.Pkg, st.Args[len(st.Args)-1])
+			construct := fmt.Sprintf("%s store #%d", f.Name(), i+1)
+			if stored == nil || vp == nil {
+				c.Undecided("stored-path-has-verdict", construct, st.Pos(), "stored path is not a plain variable / validatePath not found")
+				continue
+			}
+			isThis := func(n ast.Node) bool { return core.NodeHas(n, func(x ast.Node) bool { return x == ast.Node(st) }) }
+			isVerdict := func(n ast.Node) bool {
+				as, ok := n.(*ast.AssignStmt)
+				if !ok || len(as.Lhs) != 1 || len(as.Rhs) != 1 || core.FieldOf(f.Pkg, as.Lhs[0]) != hidden {
+					return false
+				}
+				sel, ok := core.Unparen(as.Lhs[0]).(*ast.SelectorExpr)
+				if !ok || core.ObjOf(f.Pkg, sel.X) != stored {
+					return false
+				}
+				call, ok := core.Unparen(as.Rhs[0]).(*ast.CallExpr)
+				return ok && core.Callee(f.Pkg, call) == vp.Obj && len(call.Args) == 1 && core.ObjOf(f.Pkg, call.Args[0]) == stored
+			}
+			isRet := func(n ast.Node) bool { _, ok := n.(*ast.ReturnStmt); return ok }
+			bad, started := core.PathAvoidingFromS(g, isThis, isVerdict, isRet)
+			pos := st.Pos()
+			if len(bad) > 0 {
+				pos = bad[0].Pos()
+			}
+			c.Check(started && len(bad) == 0, "stored-path-has-verdict", construct, pos,
+				"a path stored in the Adj-RIB-In can leave "+f.Name()+" without validatePath's verdict recorded in its HiddenReason: the stored object reads as eligible (HiddenReason None), so a later policy replacement or client registration announces an ineligible path")
+		}
+	}
+
+	refcounterRemove(c, "refcounter-removes-matched-entry")
 
 	// (2) reasons and their conditions ---------------------------------------------------------------
 	vp := c.MustFunc(adjIn + ".(*AdjRIBIn).validatePath")
